@@ -1,5 +1,5 @@
 SPECIFICATION Spec
-CONSTANTS Fams = {"bin","un","cast","cond","init","arg","ret","assign","test","opasg","incdec","d2l","d2r","cc","ccinit","ccarg","ccret","ccassign","ptr","aopasg","aincdec","case","enum"}
+CONSTANTS Fams = {"bin","un","cast","cond","init","arg","ret","assign","test","opasg","incdec","d2l","d2r","cc","ccinit","ccarg","ccret","ccassign","ptr","aopasg","aincdec","case","enum","asgv","wrap0","fcmp"}
  Seed = 0
  Stride = 1
  D2Stride = 1
